@@ -79,6 +79,10 @@ pub struct GenProfile {
     pub big_values: bool,
     /// percentage of cases that use a big key pool
     pub big_pool_pct: u32,
+    /// percentage of cases built around one huge data block whose number of restart intervals sits at
+    /// the 254/255/256 boundary of the one-byte hash-index slots (tree-level counterpart of C12's
+    /// boundary generator)
+    pub dense_pct: u32,
 }
 
 /// 300-1400 short keys (prefix + big-endian counter): reaches blocks with more than 254 entries,
@@ -418,7 +422,71 @@ pub fn verdict_table() -> impl Strategy<Value = Vec<VerdictSpec>> {
     )
 }
 
+/// big pool, one 4 MiB data block per flush, hash index on, restart interval r in 1..=3, and a leading
+/// Fill+Flush per configuration that puts 255*r + delta (delta in -2..=2) entries into one block
+fn dense_case(p: &GenProfile) -> BoxedStrategy<Case> {
+    let n_cfgs = p.n_cfgs;
+    let multi_gen = p.multi_gen;
+    (
+        big_pool(),
+        vec(
+            (
+                cfg_spec(p.blob, p.tiny),
+                prop_oneof![3 => Just(1u8), 2 => Just(2u8), 1 => Just(3u8)],
+                prop_oneof![Just(0.5f32), Just(1.0f32), Just(4.0f32), Just(8.0f32)],
+                -2i32..=2,
+                any::<bool>(),
+                wm(),
+            ),
+            n_cfgs..=n_cfgs,
+        ),
+        vec(op(p), 1..=p.max_ops.max(8) / 2),
+    )
+        .prop_map(move |(keys, cs, ops)| {
+            let mut cfgs = vec![];
+            let mut lead = vec![];
+            for (mut c, r, ratio, delta, one_seqno, wm) in cs {
+                let r = (r as usize).min(((keys.len().saturating_sub(2)) / 255).max(1));
+                c.block_size = vec![4 << 20];
+                c.restart = vec![r as u8];
+                c.hash_ratio = vec![ratio];
+                let n = (255 * r as i32 + delta).max(1) as u16;
+                lead.push(Op::Fill { start: 0, n, len: 0, del: false, one_seqno });
+                lead.push(Op::FlushActive { wm });
+                cfgs.push(c);
+            }
+            let b0 = cfgs[0].blob.clone();
+            for c in cfgs.iter_mut().skip(1) {
+                match (&b0, &mut c.blob) {
+                    (None, Some(_)) => c.blob = None,
+                    (Some(b), None) => c.blob = Some(b.clone()),
+                    (Some(b), Some(cb)) => cb.lz4 = b.lz4,
+                    _ => {}
+                }
+            }
+            lead.extend(ops);
+            Case {
+                keys,
+                cfgs,
+                ops: lead,
+                verdicts: vec![],
+                weak_keys: 0,
+                multi_gen,
+            }
+        })
+        .boxed()
+}
+
 pub fn case(p: &GenProfile) -> BoxedStrategy<Case> {
+    if p.dense_pct > 0 {
+        let mut q = p.clone();
+        q.dense_pct = 0;
+        return prop_oneof![
+            (100 - p.dense_pct) => case(&q),
+            p.dense_pct => dense_case(&q),
+        ]
+        .boxed();
+    }
     let verdicts = if p.verdicts {
         verdict_table().boxed()
     } else {
